@@ -182,12 +182,20 @@ def synth_meta(rng, kind, nch, nsync=1, sites=None, gains=None, layout=None):
 
 
 class Recording:
-    """A mock recording on disk + everything the harness knows about it."""
+    """A mock recording on disk + everything the harness knows about it.
+    opts (all optional): access 'direct' | 'symlink_files' (every file is a link, with its own
+    hashed target name in a store folder) | 'symlink_dir' (reached through a link to the folder) |
+    'relative' (relative path, after a chdir); meta_ns: the number of samples the .meta CLAIMS
+    (fileTimeSecs/fileSizeBytes) when it differs from the ns frames physically present;
+    extra_bytes: trailing bytes of an incomplete frame; ignore_warnings, open_later: constructor
+    options (open=False, then .open())."""
 
-    def __init__(self, tdir, name, meta_text, fs, ns, nc, D, cbin, chunk_samples, label, flat=None):
+    def __init__(self, tdir, name, meta_text, fs, ns, nc, D, cbin, chunk_samples, label, flat=None, opts=None):
         self.label, self.ns, self.nc, self.D, self.cbin = label, ns, nc, D, cbin
         self.flat = flat            # None, or dict(nsync=.., dtype=..): a flat binary without .meta
         self.as_str = False
+        self.opts = dict(opts or {})
+        o = self.opts
         d = Path(tdir) / name
         d.mkdir(parents=True, exist_ok=True)
         self.dir = d
@@ -197,11 +205,12 @@ class Recording:
         else:
             stem = "rec.imec0.ap" if "typeThis=nidq" not in meta_text else "rec.nidq"
             self.meta_file = d / (stem + ".meta")
-            self.meta_file.write_text(patch_meta_text(meta_text, ns, nc, fs))
+            self.meta_file.write_text(patch_meta_text(meta_text, o.get("meta_ns", ns), nc, fs))
         self.bin_file = d / (stem + ".bin")
         D.tofile(self.bin_file)
         self.file = self.bin_file
         self.bounds = []
+        files = [self.bin_file] + ([self.meta_file] if self.meta_file else [])
         if cbin:
             import mtscomp
             mtscomp.tqdm = lambda it, **kw: it      # no progress bars on stderr
@@ -211,20 +220,55 @@ class Recording:
                              check_after_compress=False)
             self.bin_file.unlink()
             self.file = cb
+            files = [cb, d / (stem + ".ch"), self.meta_file]
+        elif o.get("extra_bytes"):
+            with open(self.bin_file, "ab") as f:
+                f.write(bytes((7 * k + 1) % 251 for k in range(o["extra_bytes"])))
+        acc = o.get("access", "direct")
+        if acc == "symlink_files":
+            store = d / "objects"
+            store.mkdir()
+            for k, f in enumerate(files):
+                target = store / hashlib.sha1((name + f.name).encode()).hexdigest()[:12]
+                f.rename(target)
+                # absolute and relative link targets alternate
+                os.symlink(target if k % 2 == 0 else Path("objects") / target.name, f)
+        elif acc == "symlink_dir":
+            link = Path(tdir) / (name + "_lnk")
+            os.symlink(d, link, target_is_directory=True)
+            self.file = link / self.file.name
 
     def open(self, sort):
         import spikeglx
         if getattr(self, "file_sha1", None) is None:
             self.file_sha1 = hashlib.sha1(Path(self.file).read_bytes()).hexdigest()
-        with time_limit(60):
-            return self._open(spikeglx, sort)
+        cwd = os.getcwd()
+        try:
+            with time_limit(60):
+                return self._open(spikeglx, sort)
+        finally:
+            os.chdir(cwd)
 
     def _open(self, spikeglx, sort):
-        f = str(self.file) if self.as_str else self.file
+        o = self.opts
+        f = self.file
+        if o.get("access") == "relative":
+            os.chdir(self.dir.parent)
+            f = Path(self.dir.name) / self.file.name
+        f = str(f) if self.as_str else f
+        kw = {"sort": sort}
+        if o.get("ignore_warnings") is not None:
+            kw["ignore_warnings"] = o["ignore_warnings"]
+        if o.get("open_later"):
+            kw["open"] = False
         if self.flat is not None:
-            return spikeglx.Reader(f, nc=self.nc, ns=self.ns, fs=30000, nsync=self.flat["nsync"],
-                                   dtype=self.flat["dtype"], sort=sort)
-        return spikeglx.Reader(f, sort=sort)
+            sr = spikeglx.Reader(f, nc=self.nc, ns=self.ns, fs=30000, nsync=self.flat["nsync"],
+                                 dtype=self.flat["dtype"], **kw)
+        else:
+            sr = spikeglx.Reader(f, **kw)
+        if o.get("open_later"):
+            sr.open()
+        return sr
 
 
 # --------------------------------------------------------------------------
@@ -819,6 +863,42 @@ def build_recordings(ctx, tdir):
         recs.append(dict(name="ns_%s" % kind, text=text, fs=fs, ns=rng.choice([3, 8, 13]), nc=nc,
                          cbin=(kind in ("lf", "NP2.4")), chunk=3, label="nosync:%s" % kind, big=False,
                          exp_s2v=exp, ncases=12))
+    # (a) how the file is reached: links to files with their own target names, a linked folder,
+    #     relative path after chdir; (b) constructor options on files whose meta duration disagrees
+    #     with the frames physically present (appended frames, truncated copy, incomplete last
+    #     frame), ignore_warnings on/off, open=False then open().  The expected array is always the
+    #     calibrated array of the WHOLE frames present (C11: floor(size / frame size)).
+    k = 0
+    variants = []
+    for acc in ("symlink_files", "symlink_dir", "relative"):
+        for cb in (False, True):
+            variants.append(dict(access=acc, cbin=cb))
+    for mism in ("appended", "truncated", "partial"):
+        for iw in (False, True):
+            for cb in (False, True):
+                if mism == "partial" and cb:
+                    continue
+                variants.append(dict(mismatch=mism, ignore_warnings=iw, cbin=cb))
+    variants += [dict(open_later=True, cbin=False), dict(open_later=True, cbin=True, ignore_warnings=True),
+                 dict(access="symlink_files", mismatch="appended", ignore_warnings=True, open_later=True, cbin=False),
+                 dict(access="relative", mismatch="truncated", ignore_warnings=True, cbin=True)]
+    for v in variants:
+        kind = ["3B2", "NP2.4", "NPultra", "nidq", "lf", "3A"][k % 6]
+        text, fs, nc, exp = synth_meta(rng, kind, rng.choice([4, 6, 9]), nsync=1)
+        ns = rng.choice([17, 24, 40])
+        opts = {kk: v[kk] for kk in ("access", "ignore_warnings", "open_later") if kk in v}
+        mism = v.get("mismatch")
+        if mism == "appended":
+            opts["meta_ns"] = ns - rng.choice([1, 5, ns - 1])
+        elif mism == "truncated":
+            opts["meta_ns"] = ns + rng.choice([1, 7, 1000])
+        elif mism == "partial":
+            opts["meta_ns"] = ns + rng.choice([0, 1, -3])
+            opts["extra_bytes"] = rng.choice([1, nc, 2 * nc - 1])
+        recs.append(dict(name="o_%d" % k, text=text, fs=fs, ns=ns, nc=nc, cbin=v["cbin"], chunk=rng.choice([5, 9]),
+                         label="opened:%s:%s" % (kind, ",".join("%s=%s" % kv for kv in sorted(opts.items()))),
+                         big=False, exp_s2v=exp, ncases=12, opts=opts))
+        k += 1
     # flat binaries without a .meta file: Reader(file, nc=, ns=, fs=) — no geometry, no permutation
     S2V_AP = 2.34375e-06
     for k, (dtype, nsync, nc) in enumerate([("int16", 1, 7), ("int16", 0, 5), ("float32", 0, 4), ("int16", 2, 9)]):
@@ -839,7 +919,7 @@ def build_recordings(ctx, tdir):
         if r.get("flat") and r["flat"]["dtype"] != "int16":
             D = D.astype(r["flat"]["dtype"])
         rec = Recording(tdir, r["name"], r["text"], r["fs"], r["ns"], r["nc"], D, r["cbin"], r["chunk"], r["label"],
-                        flat=r.get("flat"))
+                        flat=r.get("flat"), opts=r.get("opts"))
         rec.as_str = rng.random() < 0.3
         rec.big = r["big"]
         rec.sweep = r.get("sweep", False)
@@ -998,7 +1078,7 @@ def d_b64(rec):
 
 
 def describe(rec, sort, case):
-    return {"label": rec.label, "flat": rec.flat, "meta_text": rec.text, "fs": rec.fs, "ns": rec.ns, "nc": rec.nc,
+    return {"label": rec.label, "flat": rec.flat, "opts": rec.opts, "as_str": rec.as_str, "meta_text": rec.text, "fs": rec.fs, "ns": rec.ns, "nc": rec.nc,
             "cbin": rec.cbin, "chunk": rec.chunk, "sort": sort, "api": case["api"] if case else None,
             "sels": case["sels"] if case else None,
             "call": call_str(case) if case else None, "D_dtype": str(rec.D.dtype), "D_int16_b64": d_b64(rec)}
@@ -1381,7 +1461,9 @@ def replay(ctx, data):
         D = np.frombuffer(base64.b64decode(inp["D_int16_b64"]), dtype=np.dtype(inp.get("D_dtype", "int16"))
                           ).reshape(inp["ns"], inp["nc"]).copy()
         rec = Recording(tdir, "replay", inp["meta_text"], inp["fs"], inp["ns"], inp["nc"], D, inp["cbin"],
-                        inp["chunk"], inp["label"], flat=inp.get("flat"))
+                        inp["chunk"], inp["label"], flat=inp.get("flat"), opts=inp.get("opts"))
+        rec.as_str = bool(inp.get("as_str"))
+        print("how the recording is reached / opened:", rec.opts or "directly, default options")
         rec.text, rec.exp_s2v = inp["meta_text"], None
         try:
             sr, su = rec.open(inp["sort"]), rec.open(False)
